@@ -41,7 +41,8 @@ COMPILERS = ["fock", "gaussian", "bosonic"]
 MESHES = ["rectangular", "rectangular_phase_end", "rectangular_symmetric", "triangular", "rectangular_compact",
           "triangular_compact", "sun_compact"]
 UKINDS = ["haar", "haar", "identity", "identity_c", "antiidentity", "perm", "perm_real", "perm_phase", "diag_phase",
-          "diag_pm", "block", "block_perm", "givens2", "real_orth", "near_identity"]
+          "diag_pm", "block", "block_perm", "givens2", "real_orth", "near_identity", "real_orth_float", "diag_pm_float",
+          "minus_identity_float"]
 
 
 def unitary(rs, n, kind):
@@ -49,6 +50,12 @@ def unitary(rs, n, kind):
         return d17.givens_product(rs, n, 2) if n >= 2 else np.identity(1, dtype=complex)
     if kind == "real_orth":
         return d17.rand_orth(rs, n).astype(complex)
+    if kind == "real_orth_float":       # real dtype: the factors start out real-valued
+        return d17.rand_orth(rs, n)
+    if kind == "diag_pm_float":
+        return np.diag(rs.choice([1.0, -1.0], n))
+    if kind == "minus_identity_float":
+        return -np.identity(n)
     if kind == "near_identity":     # exp(i eps H) around the tolerance of the `identity` shortcut (1e-13) and well above it
         from scipy.linalg import expm
         H = rs.standard_normal((n, n)) + 1j * rs.standard_normal((n, n))
@@ -333,7 +340,7 @@ def corr_mesh(ctx, sf):
     tol = float(ops._decomposition_tol)
     cases, reqs = [], []
     for it in range(ctx.n(250, 5000)):
-        m = rng.randint(2, 6)
+        m = rng.randint(1, 6)
         big = m + rng.choice([0, 1, 2, 8])
         prog = sf.Program(big)
         regidx = rng.sample(range(big), m)
@@ -387,7 +394,7 @@ def corr_mesh(ctx, sf):
                 req = dict(op="c02.mesh", kind="interferometer", reg=regidx, tol=dec02.fr(tol), identity=ident,
                            drop_identity=drop, symmetric="symmetric" in mesh, triangular=(mesh == "triangular"),
                            BS1=[[int(a), int(b), dec02.fr(t), dec02.fr(p)] for a, b, t, p, _ in BS1],
-                           R=[(dec02.fr(np.log(e).imag) if abs(e - 1) >= tol else None) for e in R])
+                           R=[(dec02.fr(math.atan2(float(np.imag(e)), float(np.real(e)))) if abs(e - 1) >= tol else None) for e in R])
                 if BS2 is not None:
                     req["BS2"] = [[int(a), int(b), dec02.fr(t), dec02.fr(p)] for a, b, t, p, _ in BS2]
         except ValueError as e:
@@ -616,8 +623,8 @@ def oracle_interferometer(ctx, sf):
     it = 0
     for mesh in MESHES:
         for drop in (True, False):
-            for m in range(3 if mesh == "sun_compact" else 2, 7):
-                kinds = UKINDS if ctx.tier != "quick" else [UKINDS[(it + j) % len(UKINDS)] for j in range(0, 12, 3)] + ["near_identity"]
+            for m in range(3 if mesh == "sun_compact" else 1, 7):
+                kinds = UKINDS if ctx.tier != "quick" else [UKINDS[(it + j) % len(UKINDS)] for j in range(0, 12, 3)] + ["near_identity", "diag_pm_float", "minus_identity_float"]
                 for kind in kinds:
                     it += 1
                     U = unitary(rs, m, kind)
